@@ -2,6 +2,9 @@
 open Model
 open Common
 
+let rec nat_of_int i = if i <= 0 then O else S (nat_of_int (i - 1))
+let rec int_of_nat = function O -> 0 | S n -> 1 + int_of_nat n
+let int_of_z = function Z0 -> 0 | Zpos p -> int_of_pos p | Zneg p -> - (int_of_pos p)
 let z_of_int i = if i = 0 then Z0 else if i > 0 then Zpos (pos_of_int i) else Zneg (pos_of_int (-i))
 
 (* cfg text: rt=0 wt=1 sa=none|ok|fail ra=0|1 ops=1,a,1e sv=1.4,1.3 sid=<hex> st=<hex> now=<hexz> *)
@@ -56,4 +59,37 @@ let handle (cmd : string) (rest : string) : string =
            let evs = inst_session c (bytes_of_hex (String.trim inp)) script in
            String.concat " ; " (List.map show_event (List.filter (fun e -> e <> EEncodeFailed) evs))
        | _ -> "driver-error session syntax")
+  | "discover" ->
+      (* discover <sup> | <offer>   versions as a.b comma separated; heap = [array of sup] *)
+      (match String.split_on_char '|' rest with
+       | [ sv; off ] ->
+           let pvs t = List.map (fun p -> match String.split_on_char '.' p with
+               | [a; b] -> (z_of_int (int_of_string a), z_of_int (int_of_string b)) | _ -> failwith "version")
+               (split_on ',' (String.trim t)) in
+           let sup = pvs sv and offer = pvs off in
+           let n = nat_of_int (List.length sup) in
+           let h = [ sup ] in
+           let sl = { s_arr = O; s_off = O; s_len = n; s_cap = n } in
+           let (h', res) = handle_discover h sl offer in
+           let show l = String.concat "," (List.map (fun (a, b) -> Printf.sprintf "%d.%d" (int_of_z a) (int_of_z b)) l) in
+           let aliased = (int_of_nat res.s_cap > 0 && int_of_nat res.s_arr = 0) || (List.nth h' 0 <> sup) in
+           Printf.sprintf "%s|%s" (show (elems h' res)) (if aliased then "aliased" else "fresh")
+       | _ -> "driver-error discover syntax")
+  | "accept" ->
+      (* accept <tokens>: T temporary error, C connection, P permanent error, S shutdown (then the listener's error) *)
+      let toks = List.init (String.length rest) (String.get rest) in
+      let rec conv l = match l with
+        | [] -> []
+        | 'T' :: r -> ATemp false :: conv r
+        | 'C' :: r -> AConn false :: conv r
+        | 'P' :: r -> APerm false :: conv r
+        | 'S' :: _ -> [ APerm true ]
+        | 'L' :: _ -> [ AConn true ]
+        | _ -> failwith "token" in
+      let (acts, res) = serve (conv toks) in
+      let show_act = function
+        | Sleep d -> Printf.sprintf "sleep:%d" (int_of_n d)
+        | ServeConn i -> Printf.sprintf "serve:%d" (int_of_nat i)
+        | CloseLate i -> Printf.sprintf "late:%d" (int_of_nat i) in
+      String.concat "," (List.map show_act acts) ^ "|" ^ (match res with RNil -> "nil" | RErr -> "err" | RRunning -> "running")
   | _ -> "unknown-command " ^ cmd
